@@ -50,6 +50,19 @@ func nsConfig(name string, v int) *models.Namespace {
 	}
 }
 
+// badVersion marks the configuration used by the "pf" event: structurally fine for
+// models.Namespace (cc would store it) but rejected by server.NewNamespace because
+// slow_sql_time does not parse, so ReloadNamespacePrepare must return an error.
+const badVersion = 9
+
+var versions = []int{0, 1, 2, badVersion}
+
+func badConfig(name string) *models.Namespace {
+	c := nsConfig(name, badVersion)
+	c.SlowSQLTime = "not-a-number"
+	return c
+}
+
 func userOf(n string, v int) string { return fmt.Sprintf("u_%s_%d", n, v) }
 func pwOf(n string, v int) string   { return fmt.Sprintf("pw_%s_%d", n, v) }
 
@@ -113,7 +126,7 @@ func (w *world) observe() (kind, detail string) {
 			return "wrong_version", fmt.Sprintf("namespace %s shows v%d, the configuration last committed for it is v%d", n, got, want)
 		}
 		// user table of the same generation
-		for v := 0; v <= 2; v++ {
+		for _, v := range versions {
 			should := present && v == want
 			if got := w.m.CheckUser(userOf(n, v)); got != should {
 				return "user_table", fmt.Sprintf("CheckUser(%s)=%v, expected %v (namespace %s at %s)", userOf(n, v), got, should, n, verStr(want, present))
@@ -153,6 +166,13 @@ func (w *world) step(hist []string, i int) {
 			w.sp.lastPrepared[n] = v
 		}
 		w.out = fmt.Sprintf("prepare:%s", resStr(err, pan))
+	case "pf":
+		// a prepare that fails must leave everything as it was: active AND prepared
+		pan = ev.Catch(func() { err = w.m.ReloadNamespacePrepare(badConfig(n)) })
+		if pan == nil && err == nil {
+			w.sp.lastPrepared[n] = badVersion // accepted after all: then it is a prepare like any other
+		}
+		w.out = fmt.Sprintf("failing-prepare:%s", resStr(err, pan))
 	case "c":
 		pan = ev.Catch(func() { err = w.m.ReloadNamespaceCommit(n) })
 		ok := pan == nil && err == nil
@@ -229,21 +249,24 @@ func (w *world) fail(hist []string, i int, kind, detail string) {
 		own = "n/a"
 	}
 	feat["own_prepare"] = own
-	dels, coms := 0, 0
+	dels, coms, fails := 0, 0, 0
 	if slot >= 0 {
 		for j := slot + 1; j < i; j++ {
-			switch hist[j][0] {
-			case 'd':
+			switch {
+			case strings.HasPrefix(hist[j], "pf "):
+				fails++
+			case hist[j][0] == 'd':
 				dels++
-			case 'c':
+			case hist[j][0] == 'c':
 				coms++
 			}
 		}
 	}
+	feat["failed_prepares_since_slot"] = cls(fails)
 	feat["deletes_since_slot"] = cls(dels)
 	feat["commit_attempts_since_slot"] = cls(coms)
 	if slot < 0 {
-		feat["deletes_since_slot"], feat["commit_attempts_since_slot"] = "no_prepare", "no_prepare"
+		feat["deletes_since_slot"], feat["commit_attempts_since_slot"], feat["failed_prepares_since_slot"] = "no_prepare", "no_prepare", "no_prepare"
 	}
 	w.feat = feat
 }
@@ -324,7 +347,7 @@ func (w *world) visible() string {
 func enabled(names []string) func([]string) []string {
 	var evs []string
 	for _, n := range names {
-		evs = append(evs, "p "+n+" 1", "p "+n+" 2", "c "+n, "d "+n)
+		evs = append(evs, "p "+n+" 1", "p "+n+" 2", "pf "+n, "c "+n, "d "+n)
 	}
 	return func([]string) []string { return evs }
 }
@@ -380,7 +403,12 @@ func main() {
 			r.Violation(ev.Witness{Summary: res.Violation + " — history: " + strings.Join(hist, "; "), Features: f,
 				Case: caseT{Part: "sequential", Names: names, Events: append([]string{}, hist...)}})
 		},
-		OnOutcome: func(o string) { r.Distinct("outcomes", o) },
+		OnOutcome: func(o string) {
+			r.Distinct("outcomes", o)
+			if strings.HasPrefix(o, "failing-prepare:error") {
+				r.Distinct("failing_prepare_errors", o)
+			}
+		},
 	})
 	if st.Capped {
 		r.Capped(fmt.Sprintf("sequential part: time budget used up at depth %d of %d", st.MaxDepth, depth))
@@ -388,11 +416,18 @@ func main() {
 	if r.DistinctN("outcomes") < 6 {
 		ev.Fatalf("C31 harness is vacuous: %d distinct outcomes", r.DistinctN("outcomes"))
 	}
-	seq := map[string]interface{}{"namespaces": names, "versions": []int{1, 2}, "max_depth": depth, "depth_reached": st.MaxDepth,
+	if nViol == 0 || r.Violations() == 0 {
+		// only meaningful on a tree without new violations: the failing prepare must really fail
+		if r.DistinctN("failing_prepare_errors") == 0 {
+			ev.Fatalf("C31 harness is vacuous: the 'pf' event never made ReloadNamespacePrepare return an error")
+		}
+	}
+	seq := map[string]interface{}{"namespaces": names, "versions": []int{1, 2}, "failing_prepare_event": true, "max_depth": depth, "depth_reached": st.MaxDepth,
 		"states": st.States, "transitions": st.Transitions, "violating_histories": nViol, "frontier_per_depth": st.PerDepth, "complete": !st.Capped}
 	r.Set("sequential", seq)
 	r.Sample(caseT{Part: "sequential", Names: names, Events: []string{"p A 2", "c A", "d B", "p B 1", "c B"}})
 	r.Sample(caseT{Part: "sequential", Names: names, Events: []string{"p A 2", "p B 2", "c A"}})
+	r.Sample(caseT{Part: "sequential", Names: names, Events: []string{"p A 2", "pf B", "c A"}})
 
 	if r.Violations() > 0 {
 		// the tree already breaks the property on sequential histories (deterministic witnesses
